@@ -34,7 +34,7 @@ MonAfter(e, evs) ==
     [] e.ev = "WriteKOL" -> [k \in Keys |-> IF Strobed(k, e.v, koh) THEN mon[k] ELSE [mon[k] EXCEPT !.hs = 0]]
     [] e.ev = "WriteKOH" -> [k \in Keys |-> IF Strobed(k, kol, e.v) THEN mon[k] ELSE [mon[k] EXCEPT !.hs = 0]]
     [] e.ev = "Inject"  -> [mon EXCEPT ![e.k] = [@ EXCEPT !.held = (e.rel = 0), !.hs = IF e.rel = 1 THEN 0 ELSE PressTh, !.sr = IF e.rel = 1 THEN ReleaseTh ELSE 0,
-                                                          !.se = 0, !.last = IF e.rel = 1 THEN "R" ELSE "P"]]
+                                                          !.se = 0, !.last = IF e.rel = 1 THEN "R" ELSE "P", !.ab = IF e.rel = 1 THEN ReleaseTh ELSE 0]]
     [] OTHER -> mon
 HistAfter(e, evs) ==
   IF e.ev = "Inject" THEN [hist EXCEPT ![e.k] = Append(@, "I")]
@@ -53,6 +53,7 @@ PropClause(e, evs, m2, h2, f2) ==
      ELSE IF evc /\ RepInterval > 0 /\ \E k \in Keys : m2[k].held /\
                 ((m2[k].last = "P" /\ RepDelay > 0 /\ m2[k].se >= RepDelay) \/ (m2[k].last = "rep" /\ m2[k].se >= RepInterval)) THEN "Cadence"
      ELSE IF evc /\ \E k \in Keys : ~m2[k].held /\ m2[k].last \in {"P", "rep"} /\ m2[k].sr >= ReleaseTh THEN "ReleaseFollows"
+     ELSE IF evc /\ e.ev \in {"Tick", "ReadKIL"} /\ \E k \in Keys : EvKind(evs, k) = "R" /\ mon[k].ab + 1 < ReleaseTh THEN "ReleaseJustified"
      ELSE IF Len(f2) > Cap THEN "FifoBounded"
      ELSE IF evc /\ e.ev # "Consume" /\ ~IsSuffix(f2, pfifo \o evs) /\ ~(e.ev = "ReadKIL" /\ f2 = <<>>) THEN "DropsOldestOnly"
      ELSE IF e.isr >= 0 /\ Bit(e.isr, 2) = 1 /\ Bit(pisr, 2) = 0 /\ ~(e.kbirq = 1 /\ (Len(f2) > 0 \/ Len(evs) > 0)) THEN "KeyiGated"
